@@ -56,6 +56,9 @@ def classify(panic, stack):
 
 
 PG_STATEMENTS = [
+    # names with more parts than any object can have (PostgreSQL: "improper qualified name")
+    "SELECT a.b.c.d(1) FROM t", "SELECT a.b.c.d.e($1)", "SELECT * FROM a.b.c.t", "SELECT id FROM a.b.c.d.t WHERE id = $1", "SELECT $1::a.b.c.d", "SELECT CAST(id AS a.b.c.d) FROM t",
+    "INSERT INTO a.b.c.t (id) VALUES ($1)", "UPDATE a.b.c.t SET id = $1", "DELETE FROM a.b.c.t WHERE id = $1", "SELECT t.* FROM t WHERE id = a.b.c.d.f(id)",
     "SELECT 1", "SELECT $1 AS x", "SELECT $1::int AS x", "VALUES (1), (2)", "SELECT * FROM (VALUES (1),(2)) AS t", "TABLE t",
     "SELECT FROM t WHERE id = $1", "INSERT INTO t (id) VALUES ($1), ($2)", "INSERT INTO t (id) VALUES ($1, $2)", "INSERT INTO t VALUES ($1, $2)",
     "INSERT INTO t DEFAULT VALUES", "INSERT INTO t (id, name) SELECT $1, $2", "INSERT INTO t (id) VALUES ($1) ON CONFLICT (id) DO UPDATE SET name = $2",
@@ -180,6 +183,19 @@ def gen_jobs(rng, tier):
     for dbt in ("", "text[]", "pg_catalog.", ".text", "a.b.c", " text"):
         add("postgresql", SCHEMA_PG, "-- name: Q :one\nSELECT id, name FROM t;\n",
             cfg_extra=lambda c, p, k=dbt: c.update(overrides=[{"go_type": "string", "db_type": k}]), tag="config:db_type")
+    # version-2 configurations: renames and overrides at package level, at top level (per language), both, neither
+    import itertools as _it
+    pkg_opts = [{}, {"rename": {"id": "Ident"}}, {"overrides": [{"go_type": "string", "db_type": "text"}]}, {"rename": {"name": "Label"}, "overrides": [{"go_type": "int64", "column": "t.id"}]},
+                {"rename": {}}, {"overrides": []}]
+    top_opts = [None, {}, {"go": {}}, {"go": {"rename": {"t": "Thing"}}}, {"kotlin": {}}, {"kotlin": {"rename": {"id": "ident"}}}, {"go": {"overrides": [{"go_type": "string", "db_type": "uuid"}]}},
+                {"go": {"rename": {"id": "Key"}}, "kotlin": {"rename": {"id": "key"}}}, {"python": {}}]
+    for po, to in _it.product(pkg_opts, top_opts):
+        for lang in ("go", "kotlin"):
+            gen = {"go": dict({"package": "db", "out": "db"}, **po)} if lang == "go" else {"kotlin": dict({"package": "com.x", "out": "kt"}, **{k_: v_ for k_, v_ in po.items() if k_ == "rename"})}
+            cfg = {"version": "2", "sql": [{"engine": "postgresql", "schema": "schema.sql", "queries": "query.sql", "gen": gen}]}
+            if to is not None:
+                cfg["overrides"] = to
+            jobs.append(({"op": "generate", "nofiles": True, "files": {"sqlc.json": json.dumps(cfg), "schema.sql": SCHEMA_PG, "query.sql": "-- name: Q :one\nSELECT id, name FROM t;\n"}}, "config:v2"))
     # byte-level streams
     n = 5000 if tier == "quick" else 40000
     seeds = ["-- name: Q :one\n%s;\n" % s for s in PG_STATEMENTS]
